@@ -308,6 +308,10 @@ func populate(path string, readable bool, ents []string) (cleanup func()) {
 			os.Symlink("/dev/null", filepath.Join(abs, e[3:])) // a link to something that is neither a regular file nor a directory
 		case strings.HasPrefix(e, "LX:"):
 			os.Symlink(filepath.Join(root, "targets", "missing"), filepath.Join(abs, e[3:]))
+		case strings.HasPrefix(e, "LL:"):
+			os.Symlink(e[3:], filepath.Join(abs, e[3:])) // a link to itself: ELOOP
+		case strings.HasPrefix(e, "LN:"):
+			os.Symlink(filepath.Join(tfile, "below"), filepath.Join(abs, e[3:])) // below a regular file: ENOTDIR
 		}
 	}
 	return
@@ -417,6 +421,20 @@ func dispatch(op string, a []string) string {
 			l := argzl(t)
 			if len(l) == 3 {
 				rs.AppendUnique(l[0], l[1], l[2])
+				// read every accessor between the appends (results dropped): a value remembered
+				// from an earlier state must not survive the next append
+				rs.Len()
+				rs.Min()
+				rs.Max()
+				rs.Start()
+				rs.End()
+				_ = rs.String()
+				rs.Contains(l[0])
+				rs.Index(l[1])
+				rs.Value(0)
+				for it, k := rs.IterValues(), 0; !it.IsDone() && k < 3; k++ {
+					it.Next()
+				}
 			}
 		}
 		return "OK" + probeRanges(rs)
@@ -503,6 +521,12 @@ func dispatch(op string, a []string) string {
 			b.WriteString(" qstr=ERR")
 		} else {
 			fmt.Fprintf(&b, " qstr=%s qlen=%d p0=%s plast=%s pout=%s", hexs(q.String()), q.Len(), hexs(q.Index(0)), hexs(q.Index(q.Len()-1)), hexs(q.Index(q.Len())))
+			// the templated string (what seqls prints for a pattern argument, what seqinfo --format prints)
+			fm, ferr := q.Format("{{dir}}{{base}}{{frange}}{{pad}}{{ext}} {{startf}} {{endf}} {{len}} {{zfill}}")
+			if ferr != nil {
+				fm = "FORMAT-ERROR"
+			}
+			fmt.Fprintf(&b, " M_format=%s", hexs(fm))
 		}
 		el := time.Since(t0)
 		runtime.ReadMemStats(&ms1)
